@@ -183,6 +183,8 @@ def zoo_recipe(rng, tier):
             "noise"][int(rng.integers(6))]
     X, _ = gen_data(rng, n, p, kind)
     return {"kind": "zoo", "det": spec, "X": X, "index": (INDEX_KINDS + TIED_INDEX_KINDS)[int(rng.integers(7))],
+            "variant": [None, None, "edited_between", "output_edited"][int(rng.integers(4))],
+            "vseed": int(rng.integers(2 ** 31)),
             "columns": ["default", "strings", "duplicate", "printsame"][int(rng.integers(4))]}
 
 
@@ -199,8 +201,29 @@ def zoo_case(ctx, r):
     I.drain()
     try:
         det = build(r["det"]).fit(df)
-        y = det.predict(df)
-        dense = det.transform(df)
+        variant = r.get("variant")
+        ctx.stat(f"zoo_variant[{variant}]")
+        if variant in ("edited_between", "output_edited") and isinstance(df, pd.DataFrame):
+            # predict(X) and transform(X) must describe the same events also when the caller does
+            # something in between: edits X in place (transform and a new predict see the new values),
+            # or changes the frame that predict returned (it is the caller's own copy)
+            y0 = det.predict(df)
+            if variant == "edited_between":
+                hr = np.random.default_rng(r.get("vseed", 0))
+                a = int(hr.integers(0, max(1, n - 2)))
+                df.iloc[a:a + max(2, n // 3), :] += float(hr.choice([-6.0, 6.0]))
+                dense = det.transform(df)
+                y = det.predict(df)
+            else:
+                if len(y0):
+                    y0.drop(index=y0.index[0], inplace=True)
+                    if "labels" in y0.columns:
+                        y0["labels"] = 7
+                dense = det.transform(df)
+                y = det.predict(df)
+        else:
+            y = det.predict(df)
+            dense = det.transform(df)
     except Exception as ex:
         # running at all is C14's business; here only conversions are judged
         ctx.stat(f"zoo_exceptions[{type(ex).__name__}]")
